@@ -14,12 +14,12 @@ import time
 
 VERIF = os.path.dirname(os.path.dirname(os.path.abspath(__file__)))
 REPO = os.environ.get("VERIF_REPO", "/repo")
-SCRATCH_ROOT = os.environ.get("VERIF_SCRATCH", "/var/tmp/verif")
+SCRATCH_ROOT = os.environ.get("VERIF_SCRATCH", "/var/tmp/verif")  # developer runs against a mutated copy use another root
 CACHE = os.environ.get("VERIF_CACHE", os.path.join(VERIF, ".cache"))
 KANI_TARGET = os.path.join(CACHE, "kani-target")
 NATIVE_TARGET = os.path.join(CACHE, "native-target")
-REPLAY_DIR = os.path.join(VERIF, "replay")
-EVIDENCE_DIR = os.path.join(VERIF, "evidence")
+REPLAY_DIR = os.environ.get("VERIF_REPLAY_DIR", os.path.join(VERIF, "replay"))
+EVIDENCE_DIR = os.environ.get("VERIF_EVIDENCE_DIR", os.path.join(VERIF, "evidence"))
 FINDINGS_FILE = os.path.join(VERIF, "known-findings.txt")
 
 EXIT_OK, EXIT_VIOLATION, EXIT_UNDECIDED = 0, 1, 2
